@@ -1,0 +1,25 @@
+//go:build verif
+
+package table
+
+import "sort"
+
+// VerifC15CacheFamilies lists the family index of the reader cache (families[family][file]) as
+// sorted "family/file" strings, under the cache mutex. Read-only; used by the C15 verification
+// harness next to VerifC02CacheEntries (LRU order, ref counts, reader objects).
+func VerifC15CacheFamilies(c Cache) []string {
+	sc, ok := c.(*storeCache)
+	if !ok {
+		return nil
+	}
+	sc.mutex.Lock()
+	defer sc.mutex.Unlock()
+	var rs []string
+	for fam, files := range sc.families {
+		for f := range files {
+			rs = append(rs, fam+"/"+f)
+		}
+	}
+	sort.Strings(rs)
+	return rs
+}
